@@ -206,7 +206,9 @@ def _minit(spec, j):
   f = _util._initialize_metric_mahalanobis
   for t in range(spec['n']):
     ds = D.well_formed(rng, dmax=6, variant=['plain', 'offset', 'illcond',
-                                             'small_scale'][t % 4], nmax=40)
+                                             'small_scale', 'factorial',
+                                             'coarse'][t % 6], nmax=40,
+                       d=[None, int(rng.randint(3, 6))][t % 6 >= 4])
     X, d = np.asarray(ds['X'], float), ds['d']
     as_tuples = bool(t % 2)
     if as_tuples:
